@@ -12,6 +12,7 @@
       anchors |-> << [unit  |-> 1,              page / slide / sheet the anchor sits on (1 for flow formats)
                       cands |-> << T .. >>,     the relationship(s) carrying the anchor's id: exactly one, or
                                                 two for a duplicated rId (invalid package: either may win)
+                      nest |-> "g",             grouping construct around the anchor ("" = none): never changes the result
                       ref |-> 1,                identity of the reference (relationship id / href / manifest item):
                                                 anchors with equal ref share ONE reference
                       fw |-> 40, fh |-> 24]     display size of the frame in CSS px (ODF, XLSX extent), 0 elsewhere
@@ -92,7 +93,10 @@ DeviationNames ==
     "Ppt!UnitViewsOmitImages",
     "Shared!ReferenceReturnedAgain", \* a reference anchored twice is returned twice in a once-per-reference format
     "Ooxml!JpegFillBytesNotSkipped", \* docx/pptx/xlsx sniffer copies: 0xFF fill bytes before a marker end the scan
-    "Name!ContentTypeFromExtension"  \* a part without extension gets a content type made from its name
+    "Name!ContentTypeFromExtension", \* a part without extension gets a content type made from its name
+    "Xlsx!GroupedPictureSkipped",    \* xdr:pic inside xdr:grpSp of an anchor is not found
+    "Odp!GroupedFrameSkipped",       \* frames inside draw:g are not visited
+    "Docx!NestedAnchorsLast"         \* drawings in table cells / block content controls numbered after all others
   }
 
 Odf == {"odt", "odp", "ods", "odg"}
@@ -183,18 +187,33 @@ Target(case, t, Dev) ==
                                             ELSE Resolved(case.base, t, Dev))
       [] OTHER             -> 0
 
-Parts(case, a, Dev) == { Target(case, a.cands[k], Dev) : k \in DOMAIN a.cands }
+\* a.nest names the grouping construct the anchor sits in ("" = directly on the page / in the body): shape groups
+\* (ODF draw:g, PPTX p:grpSp, XLSX xdr:grpSp, DOCX wpg), table cells, content controls, text boxes, figure / a / td,
+\* RTF \shp and cells.  It changes NOTHING in what must be returned.  As-built, two walkers do not look into groups:
+Skipped(case, a, Dev) ==
+    \/ "Xlsx!GroupedPictureSkipped" \in Dev /\ case.fmt = "xlsx" /\ a.nest # ""
+    \/ "Odp!GroupedFrameSkipped" \in Dev /\ case.fmt = "odp" /\ a.nest # ""
+
+Parts(case, a, Dev) == IF Skipped(case, a, Dev) THEN {0} ELSE { Target(case, a.cands[k], Dev) : k \in DOMAIN a.cands }
 IsExternal(a) == \A k \in DOMAIN a.cands : a.cands[k].mode = "external"
 
 (* ------------------------------------------------------------------ the property *)
 \* iteration order of the anchors: document order, unless a container-order deviation is on
+DocOrder(case) == [i \in DOMAIN case.anchors |-> i]
+\* DOCX as-built: only drawings below the body's own paragraphs are put in document order; those in table cells
+\* and block-level content controls follow in relationship-file order
+DocxDeep(a) == a.nest \in {"tc", "sdt"}
 Iter(case, Dev) ==
     IF ("Docx!RelationshipOrder" \in Dev /\ case.fmt = "docx") \/ ("Epub!ManifestOrder" \in Dev /\ case.fmt = "epub")
-    THEN case.order ELSE [i \in DOMAIN case.anchors |-> i]
+    THEN case.order
+    ELSE IF "Docx!NestedAnchorsLast" \in Dev /\ case.fmt = "docx"
+    THEN SelectSeq(DocOrder(case), LAMBDA i : ~DocxDeep(case.anchors[i]))
+         \o SelectSeq(case.order, LAMBDA i : DocxDeep(case.anchors[i]))
+    ELSE DocOrder(case)
 
 \* as-built: an anchor that is returned as a record without bytes
 MustBeEmpty(case, a, Dev) ==
-    \/ "Odf!ExternalLinkReturnedEmpty" \in Dev /\ case.fmt \in Odf /\ IsExternal(a)
+    \/ "Odf!ExternalLinkReturnedEmpty" \in Dev /\ case.fmt \in Odf /\ IsExternal(a) /\ ~Skipped(case, a, Dev)
     \/ "Odg!MissingReturnedEmpty" \in Dev /\ case.fmt = "odg" /\ ~IsExternal(a) /\ Parts(case, a, Dev) = {0}
 
 DimsOK(case, a, rec, Dev) ==
